@@ -75,7 +75,33 @@ Definition d_cfg (s : sexp) : config :=
 Definition d_templates (s : sexp) : templates :=
   d_list (fun p => (d_str (d_nth p 0), d_opt d_tree (d_nth p 1))) s.
 
-Definition e_ftext (f : ftext) : sexp := e_flat f.
+(* results travel compactly: maximal runs of atoms under the same markup stack,
+   ((markups) (atoms)) with a character as its code point and a symbol as the list of its name *)
+Definition markup_eqb (a b : markup) : bool :=
+  match a, b with
+  | MTag n, MTag m => str_eqb n m
+  | MHRef u e, MHRef w x => str_eqb u w && Bool.eqb e x
+  | MProt, MProt => true
+  | _, _ => false
+  end.
+Fixpoint mlist_eqb (a b : list markup) : bool :=
+  match a, b with
+  | [], [] => true
+  | x :: a', y :: b' => markup_eqb x y && mlist_eqb a' b'
+  | _, _ => false
+  end.
+Fixpoint runs (f : ftext) : list (list markup * list atom) :=
+  match f with
+  | [] => []
+  | (a, ms) :: r =>
+    match runs r with
+    | (ms', as') :: rest => if mlist_eqb ms ms' then (ms, a :: as') :: rest else (ms, [a]) :: (ms', as') :: rest
+    | [] => [(ms, [a])]
+    end
+  end.
+Definition e_atom_c (a : atom) : sexp := match a with ACh c => e_N c | ASym n => e_str n end.
+Definition e_ftext (f : ftext) : sexp :=
+  e_list (fun r : list markup * list atom => L [e_list e_markup (fst r); e_list e_atom_c (snd r)]) (runs f).
 Definition e_tres {X} (f : X -> sexp) (r : tres X) : sexp :=
   match r with
   | TOk v => L [A 0%Z; f v]
